@@ -37,12 +37,15 @@ def plan(tier):
             dict(cfgs=four, trees=fsops.small_trees(3), burst_len=1, depth=2, cap=60000),
             dict(cfgs=[C()], trees=fsops.small_trees(2), burst_len=2, depth=1, cap=40000),
             dict(cfgs=[C(names="prefix")], trees=fsops.small_trees(2), burst_len=1, depth=2, cap=20000),
+            dict(cfgs=[C(root_form="dot"), C(root_form="slash", root_type="bytes")], trees=fsops.small_trees(1), burst_len=1, depth=1, cap=20000),
         ]
     return [
         dict(cfgs=four, trees=fsops.small_trees(4), burst_len=1, depth=3, cap=1_500_000),
         dict(cfgs=[C(), C(full=True)], trees=fsops.small_trees(4), burst_len=2, depth=1, cap=600_000),
         dict(cfgs=[C()], trees=fsops.small_trees(2), burst_len=3, depth=1, cap=600_000),
         dict(cfgs=[C(names="prefix")], trees=fsops.small_trees(3), burst_len=2, depth=1, cap=400_000),
+        dict(cfgs=[C(root_form="dot"), C(root_form="slash", root_type="bytes"), C(root_form="rel")], trees=fsops.small_trees(3),
+             burst_len=1, depth=1, cap=200_000),
     ]
 
 
